@@ -1315,6 +1315,7 @@ func (d *Data) deleteElementInTags(ctx *datastore.VersionedCtx, batch storage.Ba
 		if err != nil {
 			return err
 		}
+		dvid.VerifPoint("yield:annotation.deleteElementInTags:after-read")
 
 		// Note all elements to be deleted.
 		var toDel []int
@@ -1357,6 +1358,7 @@ func (d *Data) deleteElementInLabel(ctx *datastore.VersionedCtx, batch storage.B
 	if err != nil {
 		return fmt.Errorf("err getting elements for label %d: %v", label, err)
 	}
+	dvid.VerifPoint("yield:annotation.deleteElementInLabel:after-read")
 
 	// Note all elements to be deleted.
 	var delta DeltaModifyElements
@@ -1406,6 +1408,7 @@ func (d *Data) deleteElementInRelationships(ctx *datastore.VersionedCtx, batch s
 		if err != nil {
 			return err
 		}
+		dvid.VerifPoint("yield:annotation.deleteElementInRelationships:after-read")
 
 		// Delete the point in relationships
 		if !elems.deleteRel(pt) {
@@ -1433,6 +1436,7 @@ func (d *Data) moveElementInTags(ctx *datastore.VersionedCtx, batch storage.Batc
 		if err != nil {
 			return err
 		}
+		dvid.VerifPoint("yield:annotation.moveElementInTags:after-read")
 
 		// Move element in tag.
 		if moved, _ := elems.move(from, to, false); moved == nil {
@@ -1472,6 +1476,7 @@ func (d *Data) moveElementInLabels(ctx *datastore.VersionedCtx, batch storage.Ba
 		if err != nil {
 			return fmt.Errorf("err getting elements for label %d: %v", oldLabel, err)
 		}
+		dvid.VerifPoint("yield:annotation.moveElementInLabels:after-read-same")
 		elems.delete(from)
 		elems.add(ElementsNR{moved})
 		return putBatchElements(batch, tk, elems)
@@ -1484,6 +1489,7 @@ func (d *Data) moveElementInLabels(ctx *datastore.VersionedCtx, batch storage.Ba
 		if err != nil {
 			return fmt.Errorf("err getting elements for label %d: %v", oldLabel, err)
 		}
+		dvid.VerifPoint("yield:annotation.moveElementInLabels:after-read-old")
 		if _, changed := elems.delete(from); changed {
 			if err := putBatchElements(batch, tk, elems); err != nil {
 				return fmt.Errorf("err putting deleted label %d element: %v", oldLabel, err)
@@ -1497,6 +1503,7 @@ func (d *Data) moveElementInLabels(ctx *datastore.VersionedCtx, batch storage.Ba
 		if err != nil {
 			return fmt.Errorf("err getting elements for label %d: %v", newLabel, err)
 		}
+		dvid.VerifPoint("yield:annotation.moveElementInLabels:after-read-new")
 		elems.add(ElementsNR{moved})
 		if err := putBatchElements(batch, tk, elems); err != nil {
 			return err
@@ -1544,6 +1551,7 @@ func (d *Data) moveElementInRelationships(ctx *datastore.VersionedCtx, batch sto
 		if err != nil {
 			return err
 		}
+		dvid.VerifPoint("yield:annotation.moveElementInRelationships:after-read")
 
 		// Move element in related element.
 		if _, changed := elems.move(from, to, false); !changed {
@@ -1564,6 +1572,7 @@ func (d *Data) modifyElements(ctx *datastore.VersionedCtx, batch storage.Batch, 
 	if err != nil {
 		return err
 	}
+	dvid.VerifPoint("yield:annotation.modifyElements:after-read")
 	if storeE != nil {
 		storeE.add(toAdd)
 	} else {
@@ -1768,6 +1777,7 @@ func (d *Data) storeLabelElements(ctx *datastore.VersionedCtx, batch storage.Bat
 		if err != nil {
 			return fmt.Errorf("err getting elements for label %d: %v", label, err)
 		}
+		dvid.VerifPoint("yield:annotation.storeLabelElements:after-read")
 
 		// Check if these annotations already exist.
 		emap := make(map[string]int)
@@ -1828,6 +1838,7 @@ func (d *Data) modifyTagElements(ctx *datastore.VersionedCtx, batch storage.Batc
 		if err != nil {
 			return err
 		}
+		dvid.VerifPoint("yield:annotation.modifyTagElements:after-read")
 		if len(td.add) != 0 {
 			if tagElems != nil {
 				tagElems.add(td.add)
@@ -2270,6 +2281,7 @@ func (d *Data) StoreElements(ctx *datastore.VersionedCtx, r io.Reader, kafkaOff 
 	// defer d.Unlock()
 
 	dvid.Infof("%d annotation elements received via POST\n", len(elems))
+	dvid.VerifPoint("yield:annotation.StoreElements:entry")
 
 	blockSize := d.blockSize()
 	addToBlock := make(map[dvid.IZYXString]Elements)
@@ -2299,6 +2311,7 @@ func (d *Data) StoreElements(ctx *datastore.VersionedCtx, r io.Reader, kafkaOff 
 		}
 		addTagDelta(elems, curBlockE, tagDelta)
 	}
+	dvid.VerifPoint("yield:annotation.StoreElements:after-block-read")
 
 	// Do modifications under a batch.
 	store, err := d.KVStore()
@@ -2351,6 +2364,7 @@ func (d *Data) StoreElements(ctx *datastore.VersionedCtx, r io.Reader, kafkaOff 
 		}
 	}
 
+	dvid.VerifPoint("yield:annotation.StoreElements:before-commit")
 	return batch.Commit()
 }
 
@@ -2362,11 +2376,13 @@ func (d *Data) DeleteElement(ctx *datastore.VersionedCtx, pt dvid.Point3d, kafka
 
 	// d.Lock()
 	// defer d.Unlock()
+	dvid.VerifPoint("yield:annotation.DeleteElement:entry")
 
 	elems, err := getElements(ctx, tk)
 	if err != nil {
 		return err
 	}
+	dvid.VerifPoint("yield:annotation.DeleteElement:after-block-read")
 
 	// Delete the given element
 	deleted, _ := elems.delete(pt)
@@ -2424,6 +2440,7 @@ func (d *Data) DeleteElement(ctx *datastore.VersionedCtx, pt dvid.Point3d, kafka
 		}
 	}
 
+	dvid.VerifPoint("yield:annotation.DeleteElement:before-commit")
 	return batch.Commit()
 }
 
@@ -2438,6 +2455,7 @@ func (d *Data) MoveElement(ctx *datastore.VersionedCtx, from, to dvid.Point3d, k
 
 	// d.Lock()
 	// defer d.Unlock()
+	dvid.VerifPoint("yield:annotation.MoveElement:entry")
 
 	// Alter all stored versions of this annotation using a batch.
 	store, err := d.KVStore()
@@ -2455,6 +2473,7 @@ func (d *Data) MoveElement(ctx *datastore.VersionedCtx, from, to dvid.Point3d, k
 	if err != nil {
 		return err
 	}
+	dvid.VerifPoint("yield:annotation.MoveElement:after-from-read")
 
 	deleteElement := (bytes.Compare(fromTk, toTk) != 0)
 	moved, _ := fromElems.move(from, to, deleteElement)
@@ -2473,6 +2492,7 @@ func (d *Data) MoveElement(ctx *datastore.VersionedCtx, from, to dvid.Point3d, k
 		if err != nil {
 			return err
 		}
+		dvid.VerifPoint("yield:annotation.MoveElement:after-to-read")
 		toElems.add(Elements{*moved})
 
 		if err := putBatchElements(batch, toTk, toElems); err != nil {
@@ -2480,6 +2500,7 @@ func (d *Data) MoveElement(ctx *datastore.VersionedCtx, from, to dvid.Point3d, k
 		}
 	}
 
+	dvid.VerifPoint("yield:annotation.MoveElement:before-commit-blocks")
 	if err := batch.Commit(); err != nil {
 		return err
 	}
@@ -2521,6 +2542,7 @@ func (d *Data) MoveElement(ctx *datastore.VersionedCtx, from, to dvid.Point3d, k
 		return err
 	}
 
+	dvid.VerifPoint("yield:annotation.MoveElement:before-commit-indexes")
 	return batch.Commit()
 }
 
